@@ -14,10 +14,8 @@ import DateutilVerif.Properties.TzGen   -- translator tie (wt-iso): obligations 
 #print axioms C08.tzstr_posix_partial
 #print axioms C08.tzstr_posix_midyear_partial
 #print axioms C08.tzrange_eq_tzstr
-<<<<<<< HEAD
 #print axioms C08.tzstr_render_partial
 #print axioms C08.tzstr_string_posix_partial
-=======
 -- translator tie (wt-iso): Gen.* (Generated/TzKernels.lean) = model, and `_gen` twins
 #print axioms C08.gen_eq_model_naive_isdst
 #print axioms C08.gen_eq_model_isdst
@@ -27,4 +25,3 @@ import DateutilVerif.Properties.TzGen   -- translator tie (wt-iso): obligations 
 #print axioms C08.gen_eq_model_tzname
 #print axioms C08.gen_eq_model_fromutc
 #print axioms C08.gen_eq_model_dst_base_offset
->>>>>>> wt-iso
